@@ -76,7 +76,7 @@ GHOST = lambda q: {q: [(r"^\s*int i = 0;", "after", "jpv_z = 0; jpv_done = 0;"),
 
 def units():
     us = []
-    for bits, w, tier, to in ((64, 2, "quick", 600), (128, 4, "quick", 900), (256, 4, "thorough", 3000), (512, 4, "thorough", 7200)):
+    for bits, w, tier, to in ((64, 2, "quick", 600), (128, 4, "quick", 900), (256, 4, "quick", 1200), (512, 4, "thorough", 7200)):
         n = bits
         W = max(1, bits // 64)
         B = BI.B(n)
@@ -89,7 +89,7 @@ def units():
                          spec_prelude=prelude(bits), ghost=GHOST(q), canary=("wnaf_size <= %d" % (bits + 1), "wnaf_size <= %d" % (bits - 7)),
                          note="loop contract: invariants + decreases; ghost z (pending zero digits), ghost step relation"))
         # the callee contracts at this width (enforced in their own units)
-        if bits in (64, 128, 512):
+        if bits in (64, 128, 512) or True:
             mk = lambda t, c, canary, **kw: BVUnit(B + "::" + t, {B + "::" + t: c}, ["C06", "C02"], unwind=kw.pop("unwind", W + 3), tier=tier, canary=canary, **kw)
             us.append(mk("is_zero", BI.c_is_zero(n), ("== 0)", "== 1)")))
             us.append(mk("is_odd", BI.c_is_odd(n), ("== 1)", "== 0)")))
